@@ -494,6 +494,15 @@ func Main(pkgNames []string) {
 		os.Exit(2)
 	}
 	r := res.New()
+	// C20: every shard process gives every package a cold start of its own (see ColdStartC20)
+	if e.Check == "C20" && *only == "" {
+		for i, name := range pkgNames {
+			if p, err := LoadPkg(e.Dir, name, i); err == nil {
+				silenceLogError(p)
+				ColdStartC20(p)
+			}
+		}
+	}
 	for i, name := range pkgNames {
 		if i%e.NShards != e.Shard || (*only != "" && *only != name) {
 			continue
